@@ -66,8 +66,9 @@ Print Assumptions C09_invalid_is_deny.
    the other namespaces is what it would write if B's objects did not exist. The
    sites are tls secretName, auth-tls-secret, secure-crt-secret,
    secure-verify-ca-secret, auth-secret (with the reuse of userlists by name),
-   auth-url svc://, and the Gateway API backendRefs of HTTPRoute/TCPRoute and
-   certificateRefs of Gateway listeners. *)
+   auth-url svc://, the Service lookup of every backend the ingress converter builds
+   (auth-url pre-build included), and the Gateway API backendRefs of HTTPRoute/TCPRoute
+   and certificateRefs of Gateway listeners. *)
 Theorem C09_noninterference : forall B d w1 w2 sites,
   all_deny d -> agree_outside B w1 w2 -> Forall wf_site sites ->
   forall i s, nth_error sites i = Some s -> outside B s ->
